@@ -564,7 +564,8 @@ def run(tier):
     for s in scripts + book:
         if tier == 'quick' and len(s) > 600:
             continue
-        muts += list(c12.mutants(s, replacements=(tier != 'quick' or len(s) < 250)))
+        # replacement tokens include values of other types: a well-typed script becomes a near-miss the checker has to reject
+        muts += list(c12.mutants(s, replacements=(tier != 'quick' or len(s) < 250), repl=c12.REPL + ['1.5', 'true', '[1]', 'none()', '(1, 2)']))
     muts = list(dict.fromkeys(muts))
     pres = list(pmap(c12._feed_chunk, [(w, True) for w in chunks(muts, 3000)]))
     parsing = []
